@@ -51,6 +51,30 @@ func callAnalyse(d *drv.Driver, a *analysed) (*modelAnalysis, error) {
 	return out, nil
 }
 
+// withSpecEnums returns a copy of env in which the members of every enum are those of the
+// specification model of the analysis (computed from the go/types facts), when it has the enum.
+func withSpecEnums(d *drv.Driver, a *analysed, env *irdump.Env) *irdump.Env {
+	m, err := callAnalyse(d, a)
+	if err != nil || m == nil || m.Env == nil {
+		return env
+	}
+	spec := map[string]*irdump.Decl{}
+	for _, md := range m.Env.Decls {
+		spec[md.Q] = md
+	}
+	b, _ := json.Marshal(env)
+	out := &irdump.Env{}
+	if json.Unmarshal(b, out) != nil {
+		return env
+	}
+	for _, dd := range out.Decls {
+		if sd := spec[dd.Q]; dd.Kind == "enum" && sd != nil && sd.Kind == "enum" {
+			dd.Members = sd.Members
+		}
+	}
+	return out
+}
+
 func sortedMembers(ms []irdump.Member) []irdump.Member {
 	out := append([]irdump.Member(nil), ms...)
 	sort.SliceStable(out, func(i, j int) bool {
